@@ -462,6 +462,9 @@ func doOp(w *world, f []string) {
 			if err != nil {
 				return
 			}
+			if (at(f, 1)+at(f, 2))%3 == 0 {
+				t = t.Clone() // a cloned type must lay out and decode like the original
+			}
 			s, _ := acmelib.NewStandardSignal(fmt.Sprintf("s%d", at(f, 1)), t)
 			setSig(at(f, 1), s)
 		case "NE":
@@ -531,6 +534,9 @@ func doOp(w *world, f []string) {
 			if s := getSig(at(f, 1)); s != nil {
 				if ss, err := s.ToStandard(); err == nil {
 					if t, err := acmelib.NewIntegerSignalType(fmt.Sprintf("t%d", at(f, 2)), at(f, 2), false); err == nil {
+						if at(f, 2)%2 == 0 {
+							t = t.Clone()
+						}
 						_ = ss.SetType(t)
 					}
 				}
